@@ -86,8 +86,26 @@ def gen_case(seed: int, prop: str, tier: str) -> dict:
             rng.shuffle(entries)
         case.update(cfg=cfg, diff=diff, entries=entries, open=rng.choice(["path", "handle"]))
     elif kind == "vmdk":
-        k = rng.choice(["hosted", "hosted", "stream", "standalone"])
-        cfg = WV.gen_cfg(rng, tier, kind="hosted" if k == "standalone" else k)
+        k = rng.choice(["hosted", "hosted", "stream", "standalone", "lines"])
+        cfg = WV.gen_cfg(rng, tier, kind="hosted" if k in ("standalone", "lines") else k)
+        if k == "lines":
+            # extent lines of every access mode and type the format knows, with their optional columns
+            xl = []
+            for _ in range(rng.choice([1, 2, 4, 7])):
+                typ = rng.choice(["SPARSE", "ZERO", "FLAT", "VMFS", "VMFSSPARSE", "VMFSRDM", "VMFSRAW", "SESPARSE"])
+                e = {"access": rng.choice(["RW", "RW", "RDONLY", "NOACCESS"]), "sectors": rng.choice([0, 1, 2048, 4192256, 1 << 33, rng.getrandbits(40)]),
+                     "type": typ, "filename": None, "start": None, "uuid": None, "dev": None}
+                if typ != "ZERO" or rng.random() < 0.2:
+                    e["filename"] = rng.choice(["disk-s001.vmdk", "disk-flat.vmdk", "my disk-000001-delta.vmdk", "dísk-sesparse.vmdk", "/vmfs/devices/disks/naa.6000",
+                                                "a b  c.vmdk", "x" * 120 + ".vmdk"])
+                    if rng.random() < 0.5:
+                        e["start"] = rng.choice([0, 0, 63, 2048, 1 << 32])
+                        if rng.random() < 0.4:
+                            e["uuid"] = rng.choice(["partitionUUID", "6000c29b-1a2b", "vml.0200"])
+                            if rng.random() < 0.5:
+                                e["dev"] = rng.choice(["naa.600508b1001c", "mpx.vmhba1:C0:T0:L0"])
+                xl.append(e)
+            case["xlines"] = xl
         if cfg["nsectors"] > 100000:
             cfg["nsectors"] = cfg["grain"] * rng.randint(1, 300)
         ddb = {}
@@ -237,7 +255,7 @@ def run_case(case: dict) -> RunResult:
                     _check("size", h.size, m["size"], bad)
                     _check("unique_id", bytes(h.disk.footer.unique_id), m["uid"], bad)
                     _check("disk_type", h.disk.footer.disk_type, m["disk_type"], bad)
-                    _check("original_size", h.disk.footer.original_size, m["size"], bad)
+                    _check("original_size", h.disk.footer.original_size, m["original_size"], bad)
                     if not cfg["fixed"]:
                         _check("block_size", h.disk.header.block_size, m["block_size"], bad)
                         _check("max_table_entries", h.disk.header.max_table_entries, m["max_table_entries"], bad)
@@ -288,6 +306,35 @@ def _vmdk(case, world, d, bad, keys, probes):
     cfg = case["cfg"]
     vk = case["vk"]
     cap = cfg["nsectors"]
+    if vk == "lines":
+        from dissect.hypervisor.disk.vmdk import DiskDescriptor
+
+        lines, want = [], []
+        for e in case["xlines"]:
+            ln = f'{e["access"]} {e["sectors"]} {e["type"]}'
+            if e["filename"] is not None:
+                ln += f' "{e["filename"]}"'
+            for kx in ("start", "uuid", "dev"):
+                if e[kx] is not None:
+                    ln += f" {e[kx]}"
+            lines.append(ln)
+            want.append((e["access"], e["sectors"], e["type"], e["filename"], e["start"], e["uuid"], e["dev"]))
+        text = WV.descriptor_text(case["cid"], "ffffffff", case["ctype"], lines, None, case["ddb"], case["style"])
+        f = SimFile()
+        f.write(0, text.encode())
+        world.fs.add(d + "/disk.vmdk", f)
+        desc = DiskDescriptor.parse(Path(d + "/disk.vmdk").read_text())
+        got = [(e.access_mode, e.sectors, e.type, e.filename, e.start_sector, e.partition_uuid, e.device_identifier) for e in desc.extents]
+        _check("extent lines", got, want, bad)
+        _check("CID", desc.attr.get("CID"), case["cid"], bad)
+        _check("createType", desc.attr.get("createType"), case["ctype"], bad)
+        _check("ddb", dict(desc.ddb), dict(case["ddb"]), bad)
+        _check("descriptor sectors", desc.sectors, sum(e["sectors"] for e in case["xlines"]), bad)
+        keys.add(("vmdk", vk, len(want), tuple(sorted({e["type"] for e in case["xlines"]}))[:3]))
+        probes["meta.vmdk_lines"] = 1
+        for e in case["xlines"]:
+            probes["meta.vmdk_extent_type_" + e["type"]] = 1
+        return
     if vk == "standalone":
         # a descriptor file naming 1-3 hosted sparse extents
         names = case["names"]
